@@ -606,6 +606,14 @@ class DilatedConnectionProtocol(Protocol):
     def disconnect(self):
         self.transport.loseConnection()
 
+    # called by Inbound, when a subchannel's application asks us to stop (or
+    # resume) delivering data: throttle reads of the underlying transport
+    def pauseProducing(self):
+        self.transport.pauseProducing()
+
+    def resumeProducing(self):
+        self.transport.resumeProducing()
+
     # select() called by Connector
 
     # called by Manager
